@@ -33,6 +33,15 @@ def C05():
 def rt_native(unit):
     seed = os.environ.get('VERIF_SEED', '0') or '0'
     rules = {
+        'ts': 'every multigraph with <= 3 objects and <= M morphisms, each morphism with dom/cod undefined or any object, x every assignment of the table '
+              'entries (objects, dom pairs, cod pairs) to the new or old copy; the real morphism_toposort on real PrefixTrees is compared with a DFS cycle '
+              'test and the list is checked to contain exactly the fully defined morphisms once, with correct dom/cod, every morphism into an object before '
+              'every morphism out of it; distinct by construction; non-trivial = at least two fully defined morphisms',
+        'pt': 'operation sequences on 3 slots of the real PrefixTreeN (N = 0..9) plus 2 restriction operands of arity N-1, compared after every '
+              'step with BTreeSet<Vec<u32>>: iteration sorted and duplicate-free, is_empty exact, contains, get(k) = tuples with prefix k, '
+              'iter_restrictions keys = first columns present (no empty subtree), union/difference, insert/remove_restriction, mapped = image, '
+              'clones and operands unchanged; all sequences of length L over the listed alphabet plus seeded random longer ones; '
+              'non-trivial = at least two growing operations',
         'wb': 'operation sequences on families of 3 clones of the real WBTreeMap<u64> compared after every step with BTreeMap, plus the '
               'introspection probe (order, cached sizes, weight balance, len, height bound): (A) all sequences of L ops over K keys, '
               '(B) all insertion orders x removal orders, (C) union/difference of all pairs of key subsets with callbacks that record '
@@ -43,7 +52,8 @@ def rt_native(unit):
 
 def C14():
     from units import wb
-    parts = [ProofPart(wb, 'WB', native=rt_native('wb'))]
+    from units import wbapi
+    parts = [ProofPart(wb, 'WB', native=rt_native('wb')), ProofPart(wbapi, 'WBAPI')]
     return {
         'level': 'proof', 'parts': parts, 'samples': wb.SAMPLES, 'always_native': True,
         'assumptions': [
@@ -55,9 +65,94 @@ def C14():
     }
 
 
-PROPERTIES = {'C05': C05, 'C14': C14}
+def C08():
+    from units import pt
+    parts = [ProofPart(pt, 'PT', native=rt_native('pt'))]
+    return {
+        'level': 'proof', 'parts': parts, 'samples': pt.SAMPLES, 'always_native': True,
+        'assumptions': [
+            'the contracts of the WBTreeMap core operations (annot/wbmap_api.py) -- proved on the real bodies by unit WB for the functions listed in the evidence of C14, bounded-checked for the others',
+            'derived Clone of PrefixTreeN / WBTreeMap is structural (clone independence then follows from value semantics)',
+            'PrefixTree0::non_empty returns a tree holding the empty tuple (static item, declared by contract)',
+            'callbacks passed as FnMut are pure functions of their arguments (Verus models FnMut calls without state change)',
+            'iter, iter_restrictions(_mut), mapped are covered by the bounded native sweep only',
+            'get_mut hands out a subtree that the caller may empty (the source says so); no wf guarantee after writing through it',
+        ],
+    }
 
-NATIVES = {'uf_0': lambda: uf_native(0), 'uf_1': lambda: uf_native(1), 'rt_wb': lambda: rt_native('wb'), 'rt_pt': lambda: rt_native('pt'), 'rt_ts': lambda: rt_native('ts')}
+
+def sn_native():
+    return Native('sn', 'sn/main.rs', cargo_deps='itertools = "=0.15.0"\neqlog-eqlog = { path = "%s" }' % os.path.join(VERIF, 'exec', 'sn', 'shim'),
+                  quick_args=['5'], thorough_args=['6'], timeout=3000,
+                  rule='every premise (sequence of atoms) of length <= L over a pool of 8 atoms is turned into a FlatRule and passed to the real to_semi_naive '
+                       'and sort_premise; contract: n sub-rules with the same atoms/conclusion and ages All/New/Old for j <,=,> i; sort_premise permutes '
+                       '(rel, args, age) triples; and for every labelling of the distinct atoms as new/old exactly one sorted sub-rule accepts iff some atom is new; '
+                       'distinct by construction; non-trivial = at least two atoms')
+
+
+def C16():
+    from units import snl
+    return {
+        'level': 'exploration', 'parts': [sn_native(), ProofPart(snl, 'SNL')], 'samples': snl.SAMPLES,
+        'assumptions': [
+            'bounded: premise length <= L over a fixed atom pool; never counted as proof',
+            'the step from ages to index fields (IndexSpec::from_query_spec_chain, flat_rule_to_ram) needs a real Eqlog and is not covered',
+            'the implicit functionality rule (semi_naive_functionality) is built from a real Eqlog and is not executed; its (New, All) shape is covered by lemma_functionality only',
+            'eqlog_eqlog is replaced by a shim of id newtypes; itertools 0.15.0 is the real crate',
+        ],
+    }
+
+
+def sd_prepare(wd):
+    """cut `Location` (+ its impl) out of grammar_util.rs and `whipe_comments` out of build.rs, verbatim"""
+    from kit.extract import Source
+    d = os.path.join(wd, 'sd_extract')
+    os.makedirs(d, exist_ok=True)
+    g = Source(os.path.join(driver.REPO, 'eqlog/src/grammar_util.rs'))
+    st = g.item(r'#\[derive\([^\]]*\)\]\s*pub struct Location\b', name='Location')
+    im = g.item(r'impl Location\s*\{', name='impl Location')
+    with open(os.path.join(d, 'location.rs'), 'w') as f:
+        f.write(st.orig + '\n' + im.orig + '\n')
+    b = Source(os.path.join(driver.REPO, 'eqlog/src/build.rs'))
+    w = b.fn('whipe_comments')
+    with open(os.path.join(d, 'whipe_comments.rs'), 'w') as f:
+        f.write(w.orig + '\n')
+    return {'SD_EXTRACT': d}
+
+
+def sd_native():
+    return Native('sd', 'sd/main.rs', cargo_deps='itertools = "=0.15.0"', prepare=sd_prepare, quick_args=['5'], thorough_args=['6'], timeout=3000,
+                  rule='every text of <= L symbols over {a, space, /, LF, CRLF, e-acute} x every location the parse-error conversion (error.rs:148-200) can produce for it '
+                       '(token spans on non-blank characters of the comment-blanked text, one-byte invalid-token locations, (eof, eof+1)): the real whipe_comments, '
+                       'Location::intersect and SourceDisplay::fmt must not panic, print the number of the input line containing the position, and only complete input lines; '
+                       'distinct by construction; non-trivial = the text has more than one line')
+
+
+def C11():
+    return {
+        'level': 'exploration', 'parts': [sd_native()], 'samples': [],
+        'assumptions': [
+            'bounded and partial: only the diagnostic renderer (source_display.rs, Location::intersect, whipe_comments) is executed; the LALRPOP parser, Eqlog::close and semantics/*.rs are not covered',
+            'the set of locations is an over-approximation of token spans derived from the text, not produced by the real lexer',
+        ],
+    }
+
+
+def C18():
+    return {
+        'level': 'exploration', 'parts': [rt_native('ts')],
+        'samples': [],
+        'assumptions': [
+            'bounded only: <= 3 objects, <= 3 (quick) / 4 (thorough) morphisms; never counted as proof',
+            'preconditions taken from the caller (display_recompute_model_indices_fn): dom and cod are partial functions into the object set, new and old parts are disjoint',
+            '"does not depend on the split" is read as: Ok/Err and the set of returned (morphism, dom, cod) triples are the same for every split; the order is checked to be topological for every split separately (the code iterates the new part of dom before the old part, so the sequence itself may legitimately differ)',
+        ],
+    }
+
+
+PROPERTIES = {'C05': C05, 'C14': C14, 'C08': C08, 'C16': C16, 'C18': C18, 'C11': C11}
+
+NATIVES = {'uf_0': lambda: uf_native(0), 'uf_1': lambda: uf_native(1), 'rt_wb': lambda: rt_native('wb'), 'rt_pt': lambda: rt_native('pt'), 'rt_ts': lambda: rt_native('ts'), 'sn': sn_native, 'sd': sd_native}
 
 
 def replay(pid, path):
